@@ -111,7 +111,7 @@ class Check:
         return res
 
     # -------------------------------------------------------------- traces
-    def judge(self, module, traces, label, nontrivial=None, jvms=4, keep_samples=2, timeout=3600):
+    def judge(self, module, traces, label, nontrivial=None, jvms=4, keep_samples=2, timeout=3600, gating=True):
         if not traces:
             return []
         verdicts, st = tlc.judge(module, [strip_private(t) for t in traces], tag=f'{self.pid}_{label}',
@@ -120,6 +120,9 @@ class Check:
         self.transitions += st['states']
         self.n_traces += len(traces)
         lab = self.by_label.setdefault(label, {})
+        if not gating:
+            # agreement with internal structure of the specification (step-wise machine): reported, never a violation
+            verdicts = [('DRIFT', 'step-wise machine disagreement: ' + v[1]) if v[0] == 'REJECT' else v for v in verdicts]
         for t, v in zip(traces, verdicts):
             code = v[0]
             self.counts[code] = self.counts.get(code, 0) + 1
